@@ -70,11 +70,14 @@ func c22Keys() {
 
 type c22IdP struct {
 	mu      stdsync.Mutex
-	rotated bool // k2 published as well
+	pub     map[int64]bool // published keys: 0 k1, 1 k2, 3 r1 (k1 and r1 from the start; "rotate" adds k2; "withdraw" removes one)
 	down    bool
 	slow    bool
 	fetches int
 	failed  int
+	clock   int64           // counts mints and successful JWKS deliveries (orders them)
+	gone    map[int64]int64 // key -> clock value of the first JWKS document delivered WITHOUT it since its withdrawal
+	everOut map[int64]bool  // key was withdrawn at some time in this run
 }
 
 func b64(b []byte) string { return base64.RawURLEncoding.EncodeToString(b) }
@@ -83,9 +86,14 @@ func (p *c22IdP) jwks() []byte {
 	ec := func(kid string, k *ecdsa.PrivateKey) jwkKey {
 		return jwkKey{Kid: kid, Kty: "EC", Alg: "ES256", Use: "sig", Crv: "P-256", X: b64(k.X.FillBytes(make([]byte, 32))), Y: b64(k.Y.FillBytes(make([]byte, 32)))}
 	}
-	doc := jwksDocument{Keys: []jwkKey{ec("k1", c22K1),
-		{Kid: "r1", Kty: "RSA", Alg: "RS256", Use: "sig", N: b64(c22RSA.N.Bytes()), E: b64(big.NewInt(int64(c22RSA.E)).Bytes())}}}
-	if p.rotated {
+	doc := jwksDocument{}
+	if p.pub[0] {
+		doc.Keys = append(doc.Keys, ec("k1", c22K1))
+	}
+	if p.pub[3] {
+		doc.Keys = append(doc.Keys, jwkKey{Kid: "r1", Kty: "RSA", Alg: "RS256", Use: "sig", N: b64(c22RSA.N.Bytes()), E: b64(big.NewInt(int64(c22RSA.E)).Bytes())})
+	}
+	if p.pub[1] {
 		doc.Keys = append(doc.Keys, ec("k2", c22K2))
 	}
 	b, _ := json.Marshal(doc)
@@ -98,6 +106,12 @@ func (p *c22IdP) RoundTrip(req *http.Request) (*http.Response, error) {
 	down, slow := p.down, p.slow
 	p.fetches++
 	body := p.jwks()
+	var lacking []int64
+	for _, k := range []int64{0, 1, 3} {
+		if !p.pub[k] {
+			lacking = append(lacking, k)
+		}
+	}
 	p.mu.Unlock()
 	if down {
 		p.mu.Lock()
@@ -118,6 +132,14 @@ func (p *c22IdP) RoundTrip(req *http.Request) (*http.Response, error) {
 	if !strings.HasSuffix(req.URL.Path, "/jwks") {
 		return &http.Response{StatusCode: 404, Body: io.NopCloser(bytes.NewReader(nil)), Header: http.Header{}, Request: req}, nil
 	}
+	p.mu.Lock()
+	p.clock++
+	for _, k := range lacking {
+		if _, seen := p.gone[k]; !seen && !p.pub[k] {
+			p.gone[k] = p.clock
+		}
+	}
+	p.mu.Unlock()
 	return &http.Response{StatusCode: 200, Body: io.NopCloser(bytes.NewReader(body)), Header: http.Header{"Content-Type": []string{"application/json"}}, Request: req}, nil
 }
 
@@ -134,6 +156,7 @@ type c22Tok struct {
 	jti    string
 	exists bool
 	minted time.Duration
+	clock  int64 // c22IdP.clock at mint time
 }
 
 func c22Mint(sp c22Spec, slot int, n int, now time.Duration, start time.Time) c22Tok {
@@ -204,7 +227,7 @@ func c22Mint(sp c22Spec, slot int, n int, now time.Duration, start time.Time) c2
 }
 
 // Ops (A[0] = phase): mint [ph, slot, key, alg, kid, iss, aud, exp, jti] ; present [ph, slot] ; revoke/unrevoke [ph, slot] ;
-// purge [ph] ; rotate [ph] ; idp [ph, state(0 up,1 down,2 slow)] ; advance [ph, seconds]
+// purge [ph] ; rotate [ph] ; withdraw [ph, key(0 k1,1 k2,3 r1)] ; idp [ph, state(0 up,1 down,2 slow)] ; advance [ph, seconds]
 var c22Advances = []int64{1, 20, 29, 31, 61, 290, 310, 590, 610, 3590, 3610, 7190, 7210}
 
 func (c22Engine) Generate(seed uint64, tier string) *simrun.Case {
@@ -243,8 +266,10 @@ func (c22Engine) Generate(seed uint64, tier string) *simrun.Case {
 				c.Ops = append(c.Ops, simrun.Op{C: cl, K: "unrevoke", A: []int64{ph, slot}})
 			case x < 75:
 				c.Ops = append(c.Ops, simrun.Op{C: cl, K: "purge", A: []int64{ph}})
-			case x < 80:
+			case x < 78:
 				c.Ops = append(c.Ops, simrun.Op{C: cl, K: "rotate", A: []int64{ph}})
+			case x < 80:
+				c.Ops = append(c.Ops, simrun.Op{C: cl, K: "withdraw", A: []int64{ph, []int64{0, 1, 3}[r.Intn(3)]}})
 			case x < 88:
 				c.Ops = append(c.Ops, simrun.Op{C: cl, K: "idp", A: []int64{ph, int64(r.Intn(3))}})
 			default:
@@ -255,6 +280,29 @@ func (c22Engine) Generate(seed uint64, tier string) *simrun.Case {
 		}
 		if r.Chance(1, 2) {
 			c.Ops = append(c.Ops, simrun.Op{C: 0, K: "advance", A: []int64{ph, c22Advances[r.Intn(len(c22Advances))]}})
+		}
+	}
+	if r.Chance(1, 4) {
+		// key-withdrawal scenario appended to the random history: the IdP stops publishing a key, the key-set
+		// cache runs out and is refreshed by a presentation, then a NEW token signed with the withdrawn key is presented
+		ph := int64(nph) + 1
+		key := []int64{0, 1, 3}[r.Intn(3)]
+		if key == 1 {
+			c.Ops = append(c.Ops, simrun.Op{C: 1, K: "rotate", A: []int64{ph}}, simrun.Op{C: 1, K: "present", A: []int64{ph + 1, 0}})
+			ph += 2
+		}
+		c.Ops = append(c.Ops, simrun.Op{C: 1, K: "idp", A: []int64{ph, 0}}, simrun.Op{C: 1, K: "withdraw", A: []int64{ph, key}},
+			simrun.Op{C: 0, K: "advance", A: []int64{ph, c.Knobs["ttl"] + 10}})
+		other := int64(3)
+		if key == 3 {
+			other = 0
+		}
+		c.Ops = append(c.Ops, simrun.Op{C: 1, K: "mint", A: []int64{ph + 1, 1, other, 0, 0, 0, 0, 1, 0}},
+			simrun.Op{C: 1, K: "present", A: []int64{ph + 2, 1}}, // refreshes the key set
+			simrun.Op{C: 1, K: "mint", A: []int64{ph + 3, 2, key, 0, 0, 0, 0, 1, 0}},
+			simrun.Op{C: 1, K: "present", A: []int64{ph + 4, 2}})
+		if r.Chance(1, 2) {
+			c.Ops = append(c.Ops, simrun.Op{C: 0, K: "advance", A: []int64{ph + 4, 31}}, simrun.Op{C: 1, K: "present", A: []int64{ph + 5, 2}})
 		}
 	}
 	return c
@@ -273,7 +321,7 @@ func (c22Engine) Execute(t *testing.T, c *simrun.Case, keepLog bool) *simrun.Out
 		return out
 	}
 	defer os.RemoveAll(dir)
-	idp := &c22IdP{}
+	idp := &c22IdP{pub: map[int64]bool{0: true, 3: true}, gone: map[int64]int64{}, everOut: map[int64]bool{}}
 	saved := http.DefaultTransport
 	defer func() { http.DefaultTransport = saved }()
 	p := simrun.Bubble(t, func() {
@@ -326,13 +374,24 @@ func (c22Engine) Execute(t *testing.T, c *simrun.Case, keepLog bool) *simrun.Out
 							kinds[s] = map[string]bool{}
 						}
 						kinds[s][op.K] = true
-					case "rotate", "idp":
+					case "rotate", "idp", "withdraw":
 						idpChanging = true
 					}
 				}
 				idp.mu.Lock()
 				idpUp := !idp.down && !idp.slow && !idpChanging
-				rotatedBefore := idp.rotated
+				pubBefore := map[int64]bool{}
+				goneBefore := map[int64]int64{}
+				outBefore := map[int64]bool{}
+				for k, v := range idp.pub {
+					pubBefore[k] = v
+				}
+				for k, v := range idp.gone {
+					goneBefore[k] = v
+				}
+				for k, v := range idp.everOut {
+					outBefore[k] = v
+				}
 				idp.mu.Unlock()
 				var wg sync.WaitGroup
 				for cl := 1; cl <= nclients; cl++ {
@@ -363,6 +422,10 @@ func (c22Engine) Execute(t *testing.T, c *simrun.Case, keepLog bool) *simrun.Out
 								n := nmint
 								mu.Unlock()
 								tk := c22Mint(sp, s, n, time.Since(start), start)
+								idp.mu.Lock()
+								idp.clock++
+								tk.clock = idp.clock
+								idp.mu.Unlock()
 								mu.Lock()
 								toks[s] = tk
 								mu.Unlock()
@@ -381,7 +444,16 @@ func (c22Engine) Execute(t *testing.T, c *simrun.Case, keepLog bool) *simrun.Out
 								caches.Purge(caches.OAuthJWTCache)
 							case "rotate":
 								idp.mu.Lock()
-								idp.rotated = true
+								idp.pub[1] = true
+								idp.mu.Unlock()
+							case "withdraw":
+								k := map[int64]int64{0: 0, 1: 1, 2: 3, 3: 3}[op.Arg(1)%4]
+								idp.mu.Lock()
+								if idp.pub[k] {
+									idp.pub[k] = false
+									delete(idp.gone, k)
+									idp.everOut[k] = true
+								}
 								idp.mu.Unlock()
 							case "idp":
 								idp.mu.Lock()
@@ -399,14 +471,32 @@ func (c22Engine) Execute(t *testing.T, c *simrun.Case, keepLog bool) *simrun.Out
 								accepted := err == nil
 								sp := tk.spec
 								// the statement's conditions
-								sigOK := (sp.alg == 0 || sp.alg == 3) && (sp.key == 0 || sp.key == 3 || (sp.key == 1 && (rotatedBefore || idpChanging)))
+								// The signing key counts as NOT published only when that is definite: it was never
+								// published, or the IdP withdrew it, has since delivered a key set without it to this
+								// server, and the token was minted after that delivery (so no earlier verification of
+								// it can be cached) — all before this phase, with no IdP change inside the phase.
+								keyOK := pubBefore[sp.key] || idpChanging
+								if !keyOK && sp.key != 2 && outBefore[sp.key] {
+									g, delivered := goneBefore[sp.key]
+									keyOK = !(delivered && tk.jti != "" && tk.clock > g)
+									if !keyOK && (sp.alg == 0 || sp.alg == 3) {
+										mu.Lock()
+										out.Probe("withdrawn_key_presentations_judged", 1)
+										mu.Unlock()
+									}
+								}
+								sigOK := (sp.alg == 0 || sp.alg == 3) && sp.key != 2 && keyOK
 								claimsOK := sp.iss == 0 && sp.aud == 0
 								expOK := tk.exp != 0 && now < tk.exp
 								definiteRev := !changing[s] && !isUnsure
 								var why string
 								switch {
 								case !sigOK:
-									why = "signature/algorithm is not acceptable (key=" + []string{"published k1", "k2 (published only after rotation)", "never published", "published RSA key"}[sp.key] + ", alg=" + []string{"matching asymmetric", "HS256 keyed with the public key", "none", "another asymmetric algorithm of the same family"}[sp.alg] + ")"
+									kd := []string{"k1", "k2 (published only after rotation)", "never published", "the RSA key r1"}[sp.key]
+									if sp.key != 2 && outBefore[sp.key] && !pubBefore[sp.key] {
+										kd += ", which the IdP has withdrawn; a key set without it was delivered to this server before the token was minted"
+									}
+									why = "signature/algorithm is not acceptable (key=" + kd + ", alg=" + []string{"matching asymmetric", "HS256 keyed with the public key", "none", "another asymmetric algorithm of the same family"}[sp.alg] + ")"
 								case !claimsOK:
 									why = fmt.Sprintf("issuer/audience do not match (iss=%d aud=%d; 0 = right)", sp.iss, sp.aud)
 								case tk.exp == 0:
@@ -430,7 +520,7 @@ func (c22Engine) Execute(t *testing.T, c *simrun.Case, keepLog bool) *simrun.Out
 								}
 								// bounded liveness, stated narrowly: everything right, kid names a key that was
 								// published from the start, IdP reachable and not changing, revocation state definite
-								if !accepted && sigOK && sp.key != 1 && sp.kid == 0 && claimsOK && expOK && now+time.Second < tk.exp && definiteRev && !isRevoked && idpUp {
+								if !accepted && sigOK && sp.key != 1 && !outBefore[sp.key] && !idpChanging && sp.kid == 0 && claimsOK && expOK && now+time.Second < tk.exp && definiteRev && !isRevoked && idpUp {
 									bad = append(bad, fmt.Sprintf("valid-jwt-rejected: op %d at t=%v: a JWT meeting every condition was rejected while the IdP is reachable: %v", i, now, err))
 								}
 								mu.Unlock()
